@@ -150,6 +150,10 @@ def pureVerdict (t : Transition) : String :=
   let failing := match t.obs with
     | .err _ => true
     | _ => false
+  let n := toLower (t.cmd.headD [])
+  let isStore := n.length > 5 && n.drop (n.length - 5) == b "store"
+  let shared (s : State) : Nat := (canonState s).dbs.foldl (fun m (_, d) => d.store.foldl (fun m (_, e) => max m e.val.oid) m) 0
+  if isStore && !failing then (if shared t.post > shared t.pre then "rej:alias" else "adm") else
   if !(ro || failing) then "na" else
   if (allDbIdx t).all fun j => Spec.sameDb (Spec.abs t.ctx.now t.pre j) (Spec.abs t.ctx.now t.post j) then "adm" else "rej"
 
@@ -196,7 +200,7 @@ partial def loop (h : IO.FS.Stream) (out : IO.FS.Stream) : IO Unit := do
   else
   match parseLine line with
   | .error e => out.putStrLn s!"? BAD {e}"
-  | .ok t => out.putStrLn s!"{t.seq} {verdict t} ## kv={specKvVerdict t} cls={(Known.classifyAll t.ctx t.pre t.cmd).getD "-"} mcls={(Known.classifyMem t.ctx t.pre t.cmd).getD "-"} pure={pureVerdict t} mem={memVerdict t} iso={isoVerdict t} dl={hasDeadline t} shape={shapeOf t}"
+  | .ok t => out.putStrLn s!"{t.seq} {verdict t} ## kv={specKvVerdict t} cls={(Known.classifyAll t.ctx t.pre t.cmd).getD "-"} mcls={(Known.classifyMem t.ctx t.pre t.cmd).getD "-"} pcls={(Known.classifyPure t.ctx t.pre t.cmd).getD "-"} pure={pureVerdict t} mem={memVerdict t} iso={isoVerdict t} dl={hasDeadline t} shape={shapeOf t}"
   loop h out
 
 def main : IO Unit := do
